@@ -1,3 +1,4 @@
+import CpModel.Gzip
 /-
   C17 model, part 2: header-element parsing and the two negotiations.
 
@@ -208,6 +209,10 @@ def sNan : Str := ['n', 'a', 'n']
 def sInf : Str := ['i', 'n', 'f']
 def sInfinity : Str := ['i', 'n', 'f', 'i', 'n', 'i', 't', 'y']
 
+/-- integer digits `ip`, fraction digits `fp`: at most 15 digits stay exact in the model -/
+def mkQ (neg : Bool) (ip fp : Str) : Q :=
+  if ip.length + fp.length > 15 then Q.exotic else Q.ok neg (digitsVal (ip ++ fp)) fp.length
+
 /-- `float(s)` restricted to plain decimals -/
 def parseQ (s : Str) : Q :=
   let t := strip s
@@ -220,17 +225,16 @@ def parseQ (s : Str) : Q :=
   let (fp, r2) := match r1 with
     | '.' :: r => (r.takeWhile isDigit, r.dropWhile isDigit)
     | r => ([], r)
-  if r2 = [] ∧ (ip ≠ [] ∨ fp ≠ []) then
-    if ip.length + fp.length > 15 then Q.exotic
-    else Q.ok neg (digitsVal (ip ++ fp)) fp.length
+  if r2 = [] ∧ (ip ≠ [] ∨ fp ≠ []) then mkQ neg ip fp
   else
     let lu := lower u
     if t ≠ [] ∧ (t.all exoticChar ∨ lu = sNan ∨ lu = sInf ∨ lu = sInfinity) then Q.exotic else Q.bad
 
-/-- sign-aware numerators over a common denominator -/
-def qNum (neg : Bool) (num : Nat) (other : Nat) : Int :=
-  let m : Int := Int.ofNat (num * 10 ^ other)
-  if neg then -m else m
+/-- comparison key: the decimal scaled to 15 fraction digits (exact: `parseQ` yields scale ≤ 15,
+    see `CpProofs.C17.parseQ_scale_le`) -/
+def Q.key : Q → Int
+  | .ok neg n sc => if neg then -(Int.ofNat (n * 10 ^ (15 - sc))) else Int.ofNat (n * 10 ^ (15 - sc))
+  | _ => 0
 
 def Q.isZero : Q → Bool
   | .ok _ n _ => n == 0
@@ -240,14 +244,10 @@ def Q.isPos : Q → Bool
   | .ok neg n _ => !neg && n != 0
   | _ => false
 
-/-- `a < b` / `a == b` on parsed decimals (false on bad/exotic: callers test those first) -/
-def Q.lt : Q → Q → Bool
-  | .ok na a sa, .ok nb b sb => decide (qNum na a sb < qNum nb b sa)
-  | _, _ => false
+/-- `a < b` / `a == b` on parsed decimals (callers test bad/exotic first) -/
+def Q.lt (a b : Q) : Bool := decide (a.key < b.key)
 
-def Q.eq : Q → Q → Bool
-  | .ok na a sa, .ok nb b sb => decide (qNum na a sb = qNum nb b sa)
-  | _, _ => false
+def Q.eq (a b : Q) : Bool := decide (a.key = b.key)
 
 def sOne : Str := ['1']
 
@@ -427,6 +427,13 @@ def gzipHeaders (d : Decision) (h : RespHeaders) : RespHeaders :=
   | .compress => { h1 with contentEncoding := some sGzip, contentLength := none }
   | _ => h1
 
+/-- the whole tool on (headers, body chunks): an error page replaces everything, so only the three
+    regular decisions produce a response here -/
+def gzipTool (z : Gzip.Z) (i : GzipIn) (level mtime : Nat) (h : RespHeaders) (body : List Gzip.Bytes) :
+    Decision × RespHeaders × List Gzip.Bytes :=
+  let d := gzipDecision i
+  (d, gzipHeaders d h, if d = .compress then Gzip.frame z level mtime body else body)
+
 /-! ### `ResponseEncoder` -/
 
 def sUtf8 : Str := ['u', 't', 'f', '-', '8']
@@ -512,5 +519,20 @@ def encodeCall (can : Str → Bool) (i : EncodeIn) : EncodeOut :=
       match findAcceptableCharset can i.stream i.forced i.acceptCharset with
       | .chosen c => .found c (Elem.str { ct with params := setP ct.params sCharset (.str c) })
       | r => .fail r
+
+/-! ### the bytes `encode_string` emits, over a codec parameter -/
+
+structure Codec where
+  /-- `text.encode(name)`; `none` = LookupError / UnicodeError -/
+  enc : Str → Str → Option Gzip.Bytes
+  /-- `bytes.decode(name)` -/
+  dec : Str → Gzip.Bytes → Option Str
+
+/-- `encode_string`: every str chunk on its own, all or nothing -/
+def encodeString (k : Codec) (name : Str) (chunks : List Str) : Option (List Gzip.Bytes) :=
+  chunks.mapM (k.enc name)
+
+/-- the abstract `can` of a body under a codec -/
+def canOf (k : Codec) (chunks : List Str) (name : Str) : Bool := (encodeString k name chunks).isSome
 
 end CpModel.Negotiate
